@@ -3412,7 +3412,11 @@ fn generate_constraints_expr(
                 polyvar_scope,
                 &[accessed.clone(), index.clone()],
                 memfn_instance_ty.clone(),
-                expr.node(), // TODO: this is supposed to be the function node but the function doesn't *have* a node in this case... it's used in Prov::FuncArg. FIX!
+                // The function node only names the type variables of the arguments and of the
+                // result (Prov::FuncArg/FuncOut). `index_get` has no node of its own, and the node
+                // of this expression is taken when the element is called right away (`fs[1](4)`),
+                // so the index expression stands in: it can't be the callee of anything.
+                index.node(),
                 expr.node(),
                 node_ty.clone(),
             );
